@@ -12,34 +12,37 @@
 (*   Alive / Exited             what the process did within the settle time       *)
 EXTENDS PtProcess
 VARIABLE l
-tvars == <<env, phase, out, conns, asked, ints, nenv, l>>
+tvars == <<env, phase, out, conns, asked, ints, accepting, nenv, l>>
 Trace == ndJsonDeserialize("trace.ndjson")
 Is(e) == l <= Len(Trace) /\ Trace[l].event = e
 E0 == CHOOSE e \in Envs : TRUE
-TInit == env = E0 /\ phase = "config" /\ out = <<>> /\ conns = 0 /\ asked = {} /\ ints = 0 /\ nenv = 0 /\ l = 1 /\ TLCSet(1, 0)
-TReset == Is("Reset") /\ l' = l + 1 /\ env' = E0 /\ phase' = "config" /\ out' = <<>> /\ conns' = 0 /\ asked' = {} /\ ints' = 0 /\ nenv' = 0
+TInit == env = E0 /\ phase = "config" /\ out = <<>> /\ conns = 0 /\ asked = {} /\ ints = 0 /\ accepting = TRUE /\ nenv = 0 /\ l = 1 /\ TLCSet(1, 0)
+TReset == Is("Reset") /\ l' = l + 1 /\ env' = E0 /\ phase' = "config" /\ out' = <<>> /\ conns' = 0 /\ asked' = {} /\ ints' = 0 /\ accepting' = TRUE /\ nenv' = 0
 ToEnv(j) == [ver |-> j.ver, role |-> j.role, state |-> j.state, methods |-> j.methods, proxy |-> j.proxy, bind |-> j.bind,
              orport |-> j.orport, stdinclose |-> j.stdinclose]
 TLaunch == /\ Is("Launch") /\ l' = l + 1 /\ ToEnv(Trace[l].env) \in Envs /\ env' = ToEnv(Trace[l].env)
-           /\ UNCHANGED <<phase, out, conns, asked, ints, nenv>>
+           /\ UNCHANGED <<phase, out, conns, asked, ints, nenv, accepting>>
 IsPrefix(a, b) == Len(a) <= Len(b) /\ \A i \in 1..Len(a) : a[i] = b[i]
 TLines == /\ Is("Lines") /\ l' = l + 1
           /\ LET got == Trace[l].kinds  want == Expected(env).lines IN
                IF Trace[l].complete THEN got = want ELSE IsPrefix(got, want)
           /\ out' = Trace[l].kinds /\ phase' = "running"
-          /\ UNCHANGED <<env, conns, asked, ints, nenv>>
+          /\ UNCHANGED <<env, conns, asked, ints, nenv, accepting>>
 TAsk == /\ Is("Ask") /\ l' = l + 1 /\ asked' = asked \cup {Trace[l].s} /\ ints' = (IF Trace[l].s = "INT" THEN ints + 1 ELSE ints)
-        /\ UNCHANGED <<env, phase, out, conns, nenv>>
-TOpen == Is("Open") /\ l' = l + 1 /\ conns' = conns + 1 /\ UNCHANGED <<env, phase, out, asked, ints, nenv>>
-TClose == Is("Close") /\ l' = l + 1 /\ conns > 0 /\ conns' = conns - 1 /\ UNCHANGED <<env, phase, out, asked, ints, nenv>>
+        /\ UNCHANGED <<env, phase, out, conns, nenv, accepting>>
+TOpen == Is("Open") /\ l' = l + 1 /\ conns' = conns + 1 /\ UNCHANGED <<env, phase, out, asked, ints, nenv, accepting>>
+TClose == Is("Close") /\ l' = l + 1 /\ conns > 0 /\ conns' = conns - 1 /\ UNCHANGED <<env, phase, out, asked, ints, nenv, accepting>>
 \* what the statement demands of the process at this point
 MustExit == \/ ~Expected(env).running
             \/ asked \cap Hard # {}
             \/ (ints >= 1 /\ conns = 0)
             \/ ints >= 2                                    \* a second SIGINT ends a graceful shutdown that is still waiting
-TAlive == Is("Alive") /\ l' = l + 1 /\ ~MustExit /\ UNCHANGED <<env, phase, out, conns, asked, ints, nenv>>
-TExited == Is("Exited") /\ l' = l + 1 /\ MustExit /\ UNCHANGED <<env, phase, out, conns, asked, ints, nenv>>
-TNext == TReset \/ TLaunch \/ TLines \/ TAsk \/ TOpen \/ TClose \/ TAlive \/ TExited
+TAlive == Is("Alive") /\ l' = l + 1 /\ ~MustExit /\ UNCHANGED <<env, phase, out, conns, asked, ints, nenv, accepting>>
+TExited == Is("Exited") /\ l' = l + 1 /\ MustExit /\ UNCHANGED <<env, phase, out, conns, asked, ints, nenv, accepting>>
+\* a flood of connections under a small descriptor limit came and went; then one more connection is attempted
+TFlood == Is("Flood") /\ l' = l + 1 /\ accepting' = (accepting /\ AcceptLoopSurvives) /\ UNCHANGED <<env, phase, out, conns, asked, ints, nenv>>
+TProbe == Is("Probe") /\ l' = l + 1 /\ Trace[l].accepted = accepting /\ UNCHANGED <<env, phase, out, conns, asked, ints, accepting, nenv>>
+TNext == TFlood \/ TProbe \/ TReset \/ TLaunch \/ TLines \/ TAsk \/ TOpen \/ TClose \/ TAlive \/ TExited
 TraceSpec == TInit /\ [][TNext]_tvars
 HW == TLCSet(1, IF l - 1 > TLCGet(1) THEN l - 1 ELSE TLCGet(1))
 TraceAccepted == IF TLCGet(1) = Len(Trace) THEN TRUE ELSE PrintT(<<"REJECTED_AFTER", TLCGet(1)>>) /\ FALSE
